@@ -25,14 +25,16 @@ PROPS = {
               "forms + 256 x 7 one-sided forms, each via Index, IndexMut, slice, slice_mut (pointer offset 16*lower, length, exact panic set); encoding: "
               "set_handler_addr for every canonical B64 address decoded with the SDM gate layout; option setters: explicit-state search to fixpoint "
               "(512 gate states x 19 actions) by history re-execution, each setter changes only its field; new/default/reset/missing: all 256 gates; "
-              "load/load_unsafe: lidt operand observed through the trap-and-emulate CPU (when built)."),
+              "load/load_unsafe: lidt operand observed through the trap-and-emulate CPU for stack/heap/static tables, and all 340 histories of length <= 4 "
+              "over two static tables x {load, load_unsafe} (every call executes exactly one lidt of its own table)."),
         assumptions=["gate layout table (arch.rs / c12::decode_gate) transcribed from SDM vol.3 fig 6-8 is the trusted base",
                      "current code segment = CS of this process (0x33) for the native part"],
     ),
     "C13": dict(
         profiles=BOTH, level="exploration", units=units_simple(16),
         rule=("installation: set_general_handler! for all 32896 (lo<=hi) ranges on a fresh IDT, on a prefilled IDT and in exclusive-range form for every "
-              "pair with a boundary endpoint (all pairs in thorough), single-index and full-table forms: present set == range minus reserved vectors, "
+              "pair with a boundary endpoint (all pairs in thorough), single-index and full-table forms, and all three forms with side-effecting "
+              "argument expressions (evaluated exactly once): present set == range minus reserved vectors, "
               "every other gate byte-identical, stubs pairwise distinct; entry: the address stored in each of the 256 installed gates is entered "
               "with a hardware-format frame (RSP aligned, SS,RSP,RFLAGS,CS,RIP[,error code]) x 6 error-code values in a forked child: handler runs once, "
               "index == vector, frame fields as pushed, error code iff the vector defines one, iretq resumes at the interrupted RIP/RSP with all "
@@ -45,12 +47,14 @@ PROPS = {
         rule=("DFS over append histories on real GlobalDescriptorTable<MAX> for MAX in {1,2,3,8,9}: every {user,system}-kind sequence up to the first "
               "overflow beyond MAX, values = default per kind + non-default values (0, all-ones, 6 presets, DPL patterns, TSS descriptor) at one deviation "
               "each (bound 3; 2 for MAX>=8 in quick); after every append entries()==reference Vec<u64>, selector==first_slot<<3|dpl, limit==8*len-1, "
-              "overflow panics leave the table unchanged, from_raw_entries reproduces; MAX=8192 all-user/all-system/alternating fills to overflow."),
+              "overflow panics leave the table unchanged, from_raw_entries reproduces and the rebuilt table continues identically; initial states empty() and, for "
+              "MAX=8, new()/Default/from_raw_entries(&[0])/clone/mem::take; MAX=8192 all-user/all-system/alternating fills to overflow; lgdt operand for tables of "
+              "every fill level, all load/load_unsafe histories of length <= 4 over two tables and all append/load_unsafe interleavings of length <= 5."),
         assumptions=["64-bit descriptor values covered on a boundary alphabet"],
     ),
     "C15": dict(
         profiles=["chk"], level="exploration", units=units_simple(1),
-        rule=("tss_segment_unchecked for every B64 pointer (every single bit, every all-but-one) decoded with the 16-byte system-descriptor layout; "
+        rule=("tss_segment_unchecked for every WIDE pointer (every u64 with <=3 set bits, <=3 clear bits, every run of ones: ~90k) decoded with the 16-byte system-descriptor layout; "
               "tss_segment(&'static); 6 presets + 4 constructors decoded to kind/L/D/DPL/P; dpl() for 4 DPLs x 130 surrounding patterns x {user,system}; "
               "TSS and DescriptorTablePointer layouts measured by pointer arithmetic and raw bytes."),
         assumptions=["descriptor layout transcribed from SDM vol.3 fig 8-4 / 3-8 is the trusted base"],
@@ -68,7 +72,8 @@ PROPS = {
         rule=("(a) every constructor (try_new/new/new_truncate/from_ptr, high-bit flips) over all of B64 (~700 values: every single bit, "
               "every boundary +-2) plus raw PageTableEntry::addr / idt::Entry::handler_addr on raw bit patterns; (b) explicit-state search: "
               "state = one address value, actions = every safe address-returning operation (align_up/down x 64 alignments, + - += -= x offsets, "
-              "Step forward/backward(_checked), Page/PhysFrame containing/+/-/Step/from_indices of 3 sizes, from_ptr), initial states CANON / PHYS, "
+              "Step forward/backward(_checked), Page/PhysFrame containing/+/-/+=/-=/Step/from_indices of 3 sizes, from_ptr; every op= runs on a variable that "
+              "stays observable after a caught panic and whatever it then holds is a successor state), initial states CANON / PHYS, "
               "depth 1 with the full alphabet, depth 2 from every new depth-1 value (reduced alphabet in quick, full in thorough); invariant "
               "canonical / <2^52 on every produced value. non-trivial = operation panicked/None or produced a value not seen before."),
         assumptions=["a panic is not a value", "2^64 domain covered on the boundary alphabet B64, histories to depth 2"],
@@ -86,23 +91,28 @@ PROPS = {
         rule=("Step::{forward_checked,backward_checked,forward,backward,steps_between} for VirtAddr, Page<4K/2M/1G>, PageTableIndex against the "
               "position model pos(a)=a&(2^48-1): starts = canonical boundary set, counts = 0..4, every pairwise distance between boundary "
               "positions +-1 (in the unit), 2^47+-1, 2^48+-1, usize::MAX, count*SIZE overflow; all start pairs for steps_between; PageTableIndex "
-              "all 512 x counts 0..=1024 (+large) exhaustively; mutual-inverse check on every successful step. non-trivial = the step crosses "
+              "all 512 x counts 0..=1024 (+large) exhaustively; mutual-inverse check on every successful step; forward_unchecked/backward_unchecked wherever "
+              "the checked variant succeeds; core::ops::Range / RangeInclusive over VirtAddr and Page<S> of lengths 0..6 starting up to 5 positions before "
+              "0 / the gap / the top: collect, rev, size_hint, count, nth, nth_back, step_by against the position model. non-trivial = the step crosses "
               "a half boundary or fails."),
         assumptions=["2^48 x 2^64 domain covered on boundary starts x boundary-distance counts, not exhaustively"],
     ),
     "C06": dict(
         profiles=BOTH, level="exploration", units=units_simple(16),
-        rule=("align_down/align_up (raw, VirtAddr for 2^k<=2^47, PhysAddr) and is_aligned for all 64 power-of-two alignments x (B64 + multiples "
-              "of the alignment around 0, the gap, 2^52, 2^64, +-1) against u128 arithmetic incl. exact panic conditions; ~2000 non-powers of two "
-              "must panic; Page/PhysFrame containing_address / from_start_address for 3 sizes over B64+CANON+PHYS. non-trivial = input not aligned."),
-        assumptions=["2^64 domain covered on the boundary alphabet"],
+        rule=("align_down/align_up (raw, VirtAddr for 2^k<=2^47, PhysAddr) and is_aligned for all 64 power-of-two alignments x (WIDE = every u64 with "
+              "<=3 set bits, <=3 clear bits, every contiguous run of ones, B64: ~90k values, + multiples of the alignment around 0, the gap, 2^52, 2^64, +-1) "
+              "against u128 arithmetic incl. exact panic conditions; ~2000 non-powers of two must panic; Page/PhysFrame containing_address / "
+              "from_start_address for 3 sizes over WIDE and its sign-extended / 52-bit-truncated images. non-trivial = input not aligned."),
+        assumptions=["2^64 domain covered on the bit-shape alphabet WIDE (exhaustive over values with <=3 set or <=3 clear bits and runs of ones), not on all 2^64 values"],
     ),
     "C07": dict(
         profiles=BOTH, level="exploration", units=units_simple(16),
         rule=("bounded exhaustive enumeration: every (valid value x B64 offset) pair for + - += -= and value-value "
               "differences of VirtAddr/PhysAddr/Page<S>/PhysFrame<S> (S = 4KiB,2MiB,1GiB; page counts also B64/SIZE+-1), in both "
               "build profiles, against u128 arithmetic; every range kind x size x anchor (start/end of each canonical half, "
-              "last physical frame, 0..2 pages back) x length 0..24 (quick) / 0..70 + 200000 (thorough). Alphabets are "
+              "last physical frame, 0..2 pages back) x length 0..24 (quick) / 0..70 + 200000 (thorough); for every range case each provided Iterator "
+              "method a range type could override (nth, skip, step_by, count, last, size_hint, fold, min, max; k in 0..3, n-1, n, n+1, n+3, 2n+5, 511, 512, 2^20, "
+              "usize::MAX) must agree with plain next(); thorough adds (WIDE addresses x small offsets) and (small addresses x WIDE offsets). Alphabets are "
               "sorted+deduplicated so cases are distinct by construction; non-trivial = exact result unrepresentable or above 2^47 "
               "(arith), non-empty range (ranges)."),
         assumptions=["a panic is accepted for every arithmetic operator (statement: exact-or-panic); for ranges a panic is a violation",
@@ -140,6 +150,9 @@ MAPPER_CONFIGS = [
     ("rec2:0x40000000:asc:B",       "2,2;3,0",     "3,2;4,0"),
     ("offset:0x40000000:asc:B",     "2,2;3,1",     "3,2;4,1;5,0"),
     ("mapped:0x0:lifo:A",           "2,2;3,2;4,0", "3,3;4,2;5,1;6,0"),
+    # recursive mapper built with new_unchecked from a non-recursive alias of the level-4 table
+    ("reca126:0x0:asc:A",           "2,2;3,0",     "3,3;4,1;5,0"),
+    ("reca1:0x40000000:lifo:B",   "2,1",         "3,2;4,0"),
 ]
 
 def mapper_units(tier):
@@ -151,9 +164,9 @@ def mapper_units(tier):
 _MAPPER_RULE = ("explicit-state breadth-first search over call histories on the real mappers (OffsetPageTable with several physical offsets, "
                 "MappedPageTable with a permuted frame mapping, RecursivePageTable through a demand-mapped recursive window for R in {1,2,126,200,248}) "
                 "over simulated physical memory: state = concrete content of all page-table frames + allocator pool (+ deviations used); ~250 actions "
-                "per state (map_to_with_table_flags/map_to/identity_map x 3 sizes x frames x leaf flags x parent flags x 5 allocator failure schedules, unmap, "
+                "per state (map_to_with_table_flags/map_to/identity_map x 3 sizes x frames x leaf flags (incl. one value with every flag bit but HUGE_PAGE) x 4 parent-flag values (two of them incomparable) x 5 allocator failure schedules, unmap, "
                 "update_flags, set_flags_p4/p3/p2_entry, clean_up, clean_up_addr_range x 12 ranges); bounds are unions of (depth, deviation) pairs, a deviation "
-                "being one non-default argument; 16 configurations (implementation x physical base x allocator policy x page alphabet A nesting / B edges). "
+                "being one non-default argument; 18 configurations (implementation x physical base x allocator policy x page alphabet A nesting / B edges). "
                 "After every transition: outcome class vs the abstract model R1 (Appendix A of DESIGN.md), full hardware-style traversal R2 of raw memory == R1, "
                 "parent-entry flags, allocation/deallocation logs, access monitor; in every new state: translate/translate_addr/translate_page on the probe addresses == R1 == single-address hardware walk.")
 
@@ -238,8 +251,9 @@ PROPS["C20"] = dict(
           "(through the verif_hooks accessors) == sign_extend(R<<39|R<<30|R<<21|p4<<12) etc.; constructor: for R in {1,2,126,200,248} a real table at (R,R,R,R) (the simulated level-4 "
           "frame) and real pages at every near-recursive address (one index +1/-1/+2 in each position) x 6 CR3 contents (emulated mov r,cr3; physical bases incl. addresses above 2^48) x 7 contents of the candidate slot (incl. a frame differing only in physical bits 48..51): "
           "NotRecursive / NotActive / Ok exactly as specified; the index it then uses is observed from the first recursive-window address it dereferences. "
-          "Dynamic part (6 recursive configurations of the mapper search, R in {1,2,126,200,248}, incl. pages whose level-3/2/1 index equals R): every recursive-window page "
-          "the mapper touches during a call must be (R,R,R,p4) / (R,R,p4,p3) / (R,p4,p3,p2) of the page it works on, and clean-up must visit exactly the tables that overlap its range, each through its own recursive address."),
+          "Dynamic part (8 recursive configurations of the mapper search, R in {1,2,126,200,248}, incl. pages whose level-3/2/1 index equals R, two of them "
+          "built with new_unchecked from a non-recursive alias of the level-4 table): every recursive-window page "
+          "the mapper touches during a call or during the translate/translate_addr/translate_page probes of a state must be (R,R,R,p4) / (R,R,p4,p3) / (R,p4,p3,p2) of the page it works on, and clean-up must visit exactly the tables that overlap its range, each through its own recursive address."),
     assumptions=_E4 + ["recursive indices >= 256 are reached for the address computation only (kernel-half addresses cannot be mapped in a user process)"],
 )
 ENGINES[0]["serves_properties"] = sorted(PROPS.keys())
